@@ -352,7 +352,14 @@ func (ex *Exec) mergeAll(states []*State) []*State {
 	}
 	groups := map[string][]*State{}
 	var order []string
+	var finished []*State
 	for _, s := range states {
+		// finished and dead states are never merged: nothing runs on them
+		// any more, their obligations are discharged one by one
+		if s.Done || s.Dead {
+			finished = append(finished, s)
+			continue
+		}
 		k := s.locKey()
 		if _, ok := groups[k]; !ok {
 			order = append(order, k)
@@ -379,7 +386,7 @@ func (ex *Exec) mergeAll(states []*State) []*State {
 		}
 		out = append(out, acc...)
 	}
-	return out
+	return append(out, finished...)
 }
 
 func (s *State) pcTerm(st *smt.Store) *smt.Term { return st.And(s.PC...) }
